@@ -255,23 +255,63 @@ func (fi *fileInstr) stmt(s ast.Stmt) {
 		fi.add(fi.offset(s.Pos()), 0, fmt.Sprintf("%sVerifPoint(%q);", pfx, fi.id(s.Pos())))
 		fi.nGate++
 	}
+	// a goroutine woken by a channel operation parks again at once, so that the waker and
+	// the woken goroutine never run side by side outside the scheduler's control
+	switch t := s.(type) {
+	case *ast.ExprStmt, *ast.AssignStmt:
+		if containsRecv(s) {
+			fi.add(fi.offset(s.End()), 0, fmt.Sprintf(";%sVerifPoint(%q)", pfx, fi.id(s.Pos())+":rcv"))
+			fi.nGate++
+		}
+	case *ast.SelectStmt:
+		for _, c := range t.Body.List {
+			cc := c.(*ast.CommClause)
+			if cc.Comm != nil && containsRecv(cc.Comm) {
+				fi.add(fi.offset(cc.Colon)+1, 0, fmt.Sprintf(" %sVerifPoint(%q);", pfx, fi.id(cc.Pos())+":rcv"))
+				fi.nGate++
+			}
+		}
+	}
+}
+
+func containsRecv(n ast.Node) bool {
+	found := false
+	ast.Inspect(n, func(x ast.Node) bool {
+		if found {
+			return false
+		}
+		switch t := x.(type) {
+		case *ast.FuncLit:
+			return false
+		case *ast.UnaryExpr:
+			if t.Op == token.ARROW {
+				found = true
+				return false
+			}
+		}
+		return true
+	})
+	return found
 }
 
 func (fi *fileInstr) goStmt(g *ast.GoStmt) {
 	pfx := fi.prefix
 	id := fi.id(g.Pos()) + ":go"
-	if fl, ok := g.Call.Fun.(*ast.FuncLit); ok {
-		fi.add(fi.offset(fl.Body.Lbrace)+1, 0, fmt.Sprintf("%sVerifPoint(%q);", pfx, id))
-		fi.nGo++
-		return
-	}
 	n := len(g.Call.Args)
 	if n > 4 || g.Call.Ellipsis != token.NoPos {
+		if fl, ok := g.Call.Fun.(*ast.FuncLit); ok {
+			fi.add(fi.offset(fl.Body.Lbrace)+1, 0, fmt.Sprintf("%sVerifPoint(%q);", pfx, id))
+			fi.nGo++
+			return
+		}
 		fi.notes = append(fi.notes, fmt.Sprintf("%s: go statement not instrumented (%d args)", id, n))
 		return
 	}
-	// go F(a, b) -> go lib.VerifGo2("id", F, a, b)
-	fi.add(fi.offset(g.Call.Fun.Pos()), 0, fmt.Sprintf("%sVerifGo%d(%q, ", pfx, n, id))
+	// go F(a, b) -> go lib.VerifGo2(lib.VerifSpawnID("id"), F, a, b); F may be a
+	// function literal. VerifSpawnID is evaluated by the creating goroutine and
+	// numbers the new goroutine in creation order (goroutine ids are not
+	// monotonic across Ps).
+	fi.add(fi.offset(g.Call.Fun.Pos()), 0, fmt.Sprintf("%sVerifGo%d(%sVerifSpawnID(%q), ", pfx, n, pfx, id))
 	if n == 0 {
 		fi.add(fi.offset(g.Call.Lparen), 1, "")
 	} else {
@@ -353,6 +393,24 @@ func instrumentFile(root, rel string) ([]byte, *fileInstr, error) {
 	return outb, fi, nil
 }
 
+const spawnSrc = `//go:build verif
+
+package lib
+
+import (
+	"strconv"
+	"sync/atomic"
+)
+
+// VerifSpawnSeq numbers the goroutines started by instrumented go statements
+// in creation order; reset by the simulator at the start of every run.
+var VerifSpawnSeq atomic.Uint64
+
+func VerifSpawnID(id string) string {
+	return id + "#" + strconv.FormatUint(VerifSpawnSeq.Add(1), 10)
+}
+`
+
 func main() {
 	flag.Parse()
 	if *out == "" {
@@ -417,6 +475,13 @@ func main() {
 				fmt.Printf("%-32s gates=%d locks=%d go=%d\n", rel, fi.nGate, fi.nLock, fi.nGo)
 			}
 		}
+	}
+	// a file added to package lib (not present in the repository)
+	{
+		dst := filepath.Join(*out, "src", "lib", "zz_verif_spawn.go")
+		os.MkdirAll(filepath.Dir(dst), 0o755)
+		os.WriteFile(dst, []byte(spawnSrc), 0o644)
+		overlay[filepath.Join(*repo, "lib", "zz_verif_spawn.go")] = dst
 	}
 	ob, _ := json.MarshalIndent(map[string]any{"Replace": overlay}, "", " ")
 	if err := os.WriteFile(filepath.Join(*out, "overlay.json"), ob, 0o644); err != nil {
